@@ -52,7 +52,16 @@ def install(rt: Runtime) -> Runtime:
     ex = rt.externals
 
     def fn(f):
-        return ExternalFunc(lambda args, kw, ev, node: f(*args, **kw))
+        def call(args, kw, ev, node):
+            try:
+                return f(*args, **kw)
+            except (Unsupported, AbsRaise):
+                raise
+            except (KeyError, IndexError, ValueError, ZeroDivisionError) as exc:
+                raise AbsRaise(type(exc).__name__, node)
+            except Exception as exc:        # the abstract counterpart does not cover this use
+                raise Unsupported(f"abstract library function failed: {exc!r}", node)
+        return ExternalFunc(call)
 
     ex["copy.deepcopy"] = fn(lambda v: deep(v))
     ex["copy.copy"] = fn(lambda v: list(v) if isinstance(v, list) else (set(v) if isinstance(v, set) else (dict(v) if isinstance(v, dict) else v)))
